@@ -73,6 +73,7 @@ type FnVC struct {
 	pendingSite      string
 	immut            map[*ssa.Alloc]ssa.Value
 	siteOrd          map[ssa.Instruction]int
+	cellOf           map[types.Object]ssa.Value // variables that live in a cell (closure-captured or address-taken)
 	curIdx           int
 	lastCalleeGhosts map[string]TV
 	pendingArgs      []TV
@@ -100,6 +101,7 @@ type debugBind struct {
 	val    ssa.Value
 	isAddr bool
 	idx    int
+	obj    types.Object
 }
 
 func (vc *FnVC) emit(s string) { vc.lines = append(vc.lines, s) }
@@ -723,11 +725,36 @@ func (vc *FnVC) edgeLit(p, b *ssa.BasicBlock) Term {
 
 func (vc *FnVC) collectDebug() {
 	vc.debug = map[*ssa.BasicBlock][]debugBind{}
+	vc.cellOf = map[types.Object]ssa.Value{}
+	// a named variable's cell (Alloc or captured FreeVar) carries the position of the declaring identifier
+	byPos := map[token.Pos]ssa.Value{}
+	for _, fv := range vc.fn.FreeVars {
+		if fv.Pos().IsValid() {
+			byPos[fv.Pos()] = fv
+		}
+	}
+	for _, b := range vc.fn.Blocks {
+		for _, in := range b.Instrs {
+			if a, ok := in.(*ssa.Alloc); ok && a.Comment != "" && a.Pos().IsValid() {
+				byPos[a.Pos()] = a
+			}
+		}
+	}
 	for _, b := range vc.fn.Blocks {
 		for i, in := range b.Instrs {
 			if d, ok := in.(*ssa.DebugRef); ok {
 				if obj := debugObject(d); obj != nil {
-					vc.debug[b] = append(vc.debug[b], debugBind{name: obj.Name(), val: d.X, isAddr: d.IsAddr, idx: i})
+					vc.debug[b] = append(vc.debug[b], debugBind{name: obj.Name(), val: d.X, isAddr: d.IsAddr, idx: i, obj: obj})
+					if cell, ok := byPos[obj.Pos()]; ok && obj.Pos().IsValid() {
+						vc.cellOf[obj] = cell
+					}
+					if d.IsAddr {
+						switch d.X.(type) {
+						case *ssa.Alloc, *ssa.FreeVar:
+							// the variable lives in this cell: every mention of it denotes the cell's current content
+							vc.cellOf[obj] = d.X
+						}
+					}
 				}
 			}
 		}
@@ -1198,6 +1225,20 @@ func (vc *FnVC) loopEnv(l *Loop, m *Mem, pred *ssa.BasicBlock) *Env {
 }
 
 func (vc *FnVC) debugTV(b debugBind, m *Mem) TV {
+	if cell, ok := vc.cellOf[b.obj]; ok && !b.isAddr && b.obj != nil {
+		// a value binding (e.g. the initialiser in `x := e`) of a variable that lives in a cell
+		if a, isAlloc := cell.(*ssa.Alloc); isAlloc {
+			if sv := vc.immutableCell(a); sv != nil {
+				if _, ok := vc.vals[sv]; ok || isConstOrParam(sv) {
+					return TV{t: vc.val(sv), ty: sv.Type()}
+				}
+			}
+		}
+		if _, defined := vc.vals[cell]; defined || isConstOrParam(cell) {
+			lv := vc.lvOf(cell)
+			return TV{t: vc.loadLV(lv, m), ty: lv.typ}
+		}
+	}
 	if b.isAddr {
 		lv := vc.lvOf(b.val)
 		return TV{t: vc.loadLV(lv, m), ty: lv.typ}
